@@ -31,16 +31,16 @@ theorem BN.pleq {d d' : Doc} (h : PlEq d d') : BN d d' := BN.of_strings h.string
 
 theorem BN.save (x : S) (bytes : List Byte) : BN x.d (save x bytes).2.d := by
   intro h
-  have h' : BytesNodup (calm x.d) := h
+  have h' : BytesNodup (calm x.d bytes.length) := h
   have := saveString_bytesNodup (s := bytes) h'
   cases hf : x.d.strings.find? (·.bytes == bytes) with
   | some y =>
-    have hf' : (calm x.d).strings.find? (·.bytes == bytes) = some y := hf
+    have hf' : (calm x.d bytes.length).strings.find? (·.bytes == bytes) = some y := hf
     rw [saveString_found hf'] at this
     rw [save_eq_found hf]; exact this
   | none =>
-    have hf' : (calm x.d).strings.find? (·.bytes == bytes) = none := hf
-    rw [saveString_new hf', calm_failsAt] at this
+    have hf' : (calm x.d bytes.length).strings.find? (·.bytes == bytes) = none := hf
+    rw [saveString_short hf' (Nat.le_refl _), calm_failsAt] at this
     simp only [Bool.false_eq_true, if_false] at this
     rw [save_eq_new hf]; exact this
 
@@ -368,16 +368,16 @@ theorem Tight.set_plain {d : Doc} {G : Forest} {l : Loc} {v : VData} (w : WFG d 
 /-- `save` keeps exact counts exact, with one more reference to the node it returns -/
 theorem save_exact (x : S) (bytes : List Byte) {rs : List Nat} (hs : StrOK x.d rs) (he : Exact x.d rs) :
     Exact (save x bytes).2.d ((save x bytes).1 :: rs) := by
-  have hs' : StrOK (calm x.d) rs := StrOK_congr (d := x.d) (d' := calm x.d) rfl rfl hs
-  have he' : Exact (calm x.d) rs := he
+  have hs' : StrOK (calm x.d bytes.length) rs := StrOK_congr (d := x.d) (d' := calm x.d bytes.length) rfl rfl hs
+  have he' : Exact (calm x.d bytes.length) rs := he
   cases hf : x.d.strings.find? (·.bytes == bytes) with
   | some y =>
-    have hf' : (calm x.d).strings.find? (·.bytes == bytes) = some y := hf
+    have hf' : (calm x.d bytes.length).strings.find? (·.bytes == bytes) = some y := hf
     have := saveString_exact hs' he' (saveString_found hf')
     rw [save_eq_found hf]; exact this
   | none =>
-    have hf' : (calm x.d).strings.find? (·.bytes == bytes) = none := hf
-    have hsv := saveString_new hf'
+    have hf' : (calm x.d bytes.length).strings.find? (·.bytes == bytes) = none := hf
+    have hsv := saveString_short hf' (Nat.le_refl _)
     rw [calm_failsAt] at hsv
     simp only [Bool.false_eq_true, if_false] at hsv
     have := saveString_exact hs' he' hsv
